@@ -2596,7 +2596,12 @@ class ParserFromRuntype implements BeffParser<any> {
     if (this.hideTypeNameInDescribe) {
       return [depsPart, renderTypeDescription(out)].filter((it) => it != null && it.length > 0).join("\n\n");
     }
-    const outPart = renderTypeAlias(`Codec${this.name}`, out);
+    // a referenced type may already be called Codec<name>
+    let codecName = `Codec${this.name}`;
+    while (Object.prototype.hasOwnProperty.call(ctx.definitions, codecName)) {
+      codecName += "_";
+    }
+    const outPart = renderTypeAlias(codecName, out);
     return [depsPart, outPart].filter((it) => it != null && it.length > 0).join("\n\n");
   }
   hash(): number {
